@@ -295,42 +295,54 @@ def RtCtx.endCall (c : RtCtx) (σ : CState) : CState × String :=
   | .ret code st _ => ({ σ' with state := st }, code)
   | .yielded code st _ => ({ σ' with state := st }, "YIELD_" ++ code)
 
-/-- `start()`. -/
-def RtCtx.start (c : RtCtx) (σ0 : CState) : CState × String :=
+/-- Where `start()` puts the buffer of output `i` (before any default is copied into it). -/
+def RtCtx.baseBuf (c : RtCtx) (σ0 : CState) (i : Nat) : StrBuf :=
+  let d := c.M.outs.getD i default
+  let old := σ0.strs.getD i default
+  if c.isDyn i then
+    (if d.defStr.isSome then { bytes := Array.replicate d.ty.size none, counter := 0, alloc := .heap }
+     else if c.ro.onDemand then { bytes := #[], counter := 0, alloc := .null }
+     else { bytes := Array.replicate d.ty.size none, counter := 0, alloc := .heap })
+  else { bytes := (if old.bytes.size = d.ty.size then old.bytes else Array.replicate d.ty.size none),
+         counter := 0, alloc := .inStruct }
+
+/-- The buffer of output `i` as `start()` leaves it before the start actions run. -/
+def RtCtx.initBuf (c : RtCtx) (σ0 : CState) (i : Nat) : StrBuf :=
+  let d := c.M.outs.getD i default
+  if !d.ty.isBuf then default
+  else
+    let base := c.baseBuf σ0 i
+    match d.defStr with
+    | none =>
+      -- `s[0] = 0;` for a terminated string without default (not in on-demand mode: no buffer yet)
+      if d.ty.nullTerm && base.alloc != .null then { base with bytes := base.bytes.setIfInBounds 0 (some 0) } else base
+    | some bs =>
+      let bytes := (List.range bs.length).foldl (fun a k => a.setIfInBounds k (some (bs.getD k 0))) base.bytes
+      let bytes := if d.ty.nullTerm then bytes.setIfInBounds bs.length (some 0) else bytes
+      { base with bytes := bytes, counter := bs.length }
+
+/-- The store after the declarations' defaults have been applied. -/
+def RtCtx.initStore (c : RtCtx) (σ0 : CState) : CState :=
   let n := c.M.outs.size
-  let σ : CState := { σ0 with
+  { σ0 with
     scalars := Array.ofFn (n := n) fun i =>
       let d := c.M.outs.getD i default
       match d.defInt with
       | some v => (d.ty.cty c.ro.u8 c.ro.packed).wrap v
       | none => σ0.scalars.getD i 0,
-    strs := Array.ofFn (n := n) fun i =>
-      let d := c.M.outs.getD i default
-      if !d.ty.isBuf then default
-      else
-        let dyn := c.isDyn i
-        let old := σ0.strs.getD i default
-        let base : StrBuf :=
-          if dyn then
-            (if d.defStr.isSome then { bytes := Array.replicate d.ty.size none, counter := 0, alloc := .heap }
-             else if c.ro.onDemand then { bytes := #[], counter := 0, alloc := .null }
-             else { bytes := Array.replicate d.ty.size none, counter := 0, alloc := .heap })
-          else { bytes := (if old.bytes.size = d.ty.size then old.bytes else Array.replicate d.ty.size none),
-                 counter := 0, alloc := .inStruct }
-        match d.defStr with
-        | none =>
-          -- `s[0] = 0;` for a terminated string without default (not in on-demand mode: no buffer yet)
-          if d.ty.nullTerm && base.alloc != .null then { base with bytes := base.bytes.setIfInBounds 0 (some 0) } else base
-        | some bs =>
-          let bytes := (List.range bs.length).foldl (fun a k => a.setIfInBounds k (some (bs.getD k 0))) base.bytes
-          let bytes := if d.ty.nullTerm then bytes.setIfInBounds bs.length (some 0) else bytes
-          { base with bytes := bytes, counter := bs.length },
+    strs := Array.ofFn (n := n) fun i => c.initBuf σ0 i,
     state := c.M.start }
+
+/-- The start actions as `start()` runs them (a redirect or a yield ends `start()` with OK). -/
+def RtCtx.startTree (c : RtCtx) : CTree :=
   let ctx : ArmCtx := { o := c.semOpts, x := 0, adv := 0,
                         redispatch := fun st adv => .leaf (.ret "OK" st adv),
                         oosConst := fun st => .leaf (.ret "OK" st 0) }
-  let t := c.M.startActs.tree ctx c.M.start (fun st => .leaf (.ret "OK" st 0)) (fun st => .leaf (.ret "OK" st 0))
-  let (σ', l) := c.runTree true t σ
+  c.M.startActs.tree ctx c.M.start (fun st => .leaf (.ret "OK" st 0)) (fun st => .leaf (.ret "OK" st 0))
+
+/-- `start()`. -/
+def RtCtx.start (c : RtCtx) (σ0 : CState) : CState × String :=
+  let (σ', l) := c.runTree true c.startTree (c.initStore σ0)
   match l with
   | .ret code st _ => ({ σ' with state := st }, code)
   | .yielded code st _ => ({ σ' with state := st }, "YIELD_" ++ code)
@@ -457,8 +469,10 @@ def RtCtx.safeCheck (c : RtCtx) : Bool :=
   ((List.range c.M.outs.size).all fun i =>
     let d := c.M.outs.getD i default
     decide (d.ty.cap ≤ d.ty.size) && (!d.ty.nullTerm || decide (d.ty.cap < d.ty.size)) &&
-    (match d.defStr with | some bs => decide (bs.length ≤ d.ty.cap) | none => true)) &&
+    (match d.defStr with | some bs => decide (bs.length ≤ d.ty.cap) | none => true) &&
+    (!d.ty.isBuf || d.defInt.isNone)) &&
   ((List.range c.M.states.size).all fun s =>
-    (List.range nSym).all fun x => guardedB c (c.M.call c.semOpts s x))
+    (List.range nSym).all fun x => guardedB c (c.M.call c.semOpts s x)) &&
+  guardedB c c.startTree
 
 end Nmfu
